@@ -53,14 +53,12 @@ Proof.
 Qed.
 
 (* the unit roundoff and a (very generous) bound of the underflow term *)
-Definition u : R := / 9007199254740992.          (* 2^-53 *)
-Definition eta : R := / 1000000000000000000000000000000.   (* 10^-30 >= 2^-1075 *)
+Definition u := (/ 9007199254740992)%R.          (* 2^-53 *)
+Definition eta := (/ 1000000000000000000000000000000)%R.   (* 10^-30 >= 2^-1075 *)
 
 Lemma u_bpow : / 2 * bpow radix2 (- prec + 1) = u.
 Proof.
-  unfold u, prec. change (-53 + 1)%Z with (-52)%Z.
-  change (bpow radix2 (-52)) with (/ IZR (Z.pow_pos 2 52)).
-  change (Z.pow_pos 2 52) with 4503599627370496%Z. lra.
+  unfold u. change (bpow radix2 (- prec + 1)) with (/ IZR 4503599627370496). lra.
 Qed.
 
 Lemma eta_bpow : / 2 * bpow radix2 emin <= eta.
@@ -68,8 +66,7 @@ Proof.
   apply Rle_trans with (bpow radix2 (-100)).
   - assert (H : bpow radix2 emin <= bpow radix2 (-100)) by (apply bpow_le; unfold SpecFloat.emin, emax, prec; lia).
     pose proof (bpow_ge_0 radix2 emin). lra.
-  - unfold eta. change (bpow radix2 (-100)) with (/ IZR (Z.pow_pos 2 100)).
-    change (Z.pow_pos 2 100) with 1267650600228229401496703205376%Z.
+  - unfold eta. change (bpow radix2 (-100)) with (/ IZR 1267650600228229401496703205376).
     apply Rinv_le_contravar; lra.
 Qed.
 
